@@ -188,6 +188,8 @@ def run(repo, rep, tier):
     r6 = rep.rule("R4.6", "no JSON-derived dict is splatted into named parameters", floor=3)
     r8 = rep.rule("R4.8", "Bag: numeric keys are normalised by the same function (floatOrNan) in fill/_update and in the JSON reader", floor=3)
     bag_key_rule(repo, rep, r8)
+    # the reloaded container's quantity name is written onto its own, fresh function object (never onto a shared default)
+    rep.borrow(repo, "C06", {"R6.5": ("R4.9", "the name read from JSON is written onto a function object created for this container alone", 14)})
     r7 = rep.rule("R4.7", "numbers written into serialised fields by _numpy are Python floats (float()/int() applied to numpy reductions)", floor=20)
     for c in prims:
         numpy_scalar_rule(repo, rep, r7, c, models[c.name])
